@@ -340,7 +340,7 @@ func (r *GatewayRegistry) getPreviousConflicts(ctx context.Context, dbName strin
 	conflictingDbs := make(map[configGroupAndDatabase]struct{}, 0)
 	for cgName, configGroup := range r.ConfigGroups {
 		for registryDbName, database := range configGroup.Databases {
-			if registryDbName != dbName && database.PreviousVersion != nil && database.PreviousVersion.Version != deletedDatabaseVersion {
+			if registryDbName != dbName && database.PreviousVersion != nil && !database.IsDeleted() && database.PreviousVersion.Version != deletedDatabaseVersion {
 				previousScopes := database.PreviousVersion.Scopes
 				if len(previousScopes) == 0 {
 					previousScopes = defaultOnlyRegistryScopes
